@@ -23,3 +23,190 @@ Proof. vm_compute. reflexivity. Qed.
 Example ex_spec_overlaps :
   filter (fun i => overlapsb 2 (nth i ex_rows []) [0; 0; 5; 5]%Z) (seq 0 4) = [0; 2].
 Proof. vm_compute. reflexivity. Qed.
+
+From SP Require Import Proofs.RtreeProofs.
+
+(* ---- intersects: each overlapping row exactly once, no other ----
+   for every dimension d >= 1, every list of boxes (rows with a NaN allowed),
+   every permutation [keys] (hence every curve order p), every page size
+   (0 is coerced to 1 as the constructor does), every query *)
+Theorem C03_intersects : forall d rows keys ps q,
+  1 <= d -> Forall (wf_box d) rows -> Permutation keys (seq 0 (length rows)) ->
+  length q = 2 * d ->
+  Permutation (intersects (build d rows keys ps) q)
+              (filter (fun i => overlapsb d (nth i rows []) q) (seq 0 (length rows))).
+Proof. exact RtreeProofs.C03_intersects. Qed.
+Print Assumptions C03_intersects.
+
+Theorem C03_intersects_In : forall d rows keys ps q i,
+  1 <= d -> Forall (wf_box d) rows -> Permutation keys (seq 0 (length rows)) ->
+  length q = 2 * d ->
+  (In i (intersects (build d rows keys ps) q) <->
+   i < length rows /\ overlapsb d (nth i rows []) q = true).
+Proof. exact RtreeProofs.C03_intersects_In. Qed.
+Print Assumptions C03_intersects_In.
+
+Theorem C03_intersects_NoDup : forall d rows keys ps q,
+  1 <= d -> Forall (wf_box d) rows -> Permutation keys (seq 0 (length rows)) ->
+  length q = 2 * d ->
+  NoDup (intersects (build d rows keys ps) q).
+Proof. exact RtreeProofs.C03_intersects_NoDup. Qed.
+Print Assumptions C03_intersects_NoDup.
+
+(* ---- covers_overlaps: the covered rows / the overlapping rows that are not covered ---- *)
+Theorem C03_covers_overlaps : forall d rows keys ps q,
+  1 <= d -> Forall (wf_box d) rows -> Permutation keys (seq 0 (length rows)) ->
+  length q = 2 * d ->
+  Permutation (fst (covers_overlaps (build d rows keys ps) q))
+              (filter (fun i => coveredb d (nth i rows []) q) (seq 0 (length rows))) /\
+  Permutation (snd (covers_overlaps (build d rows keys ps) q))
+              (filter (fun i => overlapsb d (nth i rows []) q && negb (coveredb d (nth i rows []) q))
+                      (seq 0 (length rows))).
+Proof. exact RtreeProofs.C03_covers_overlaps. Qed.
+Print Assumptions C03_covers_overlaps.
+
+Theorem C03_covers_In : forall d rows keys ps q i,
+  1 <= d -> Forall (wf_box d) rows -> Permutation keys (seq 0 (length rows)) ->
+  length q = 2 * d ->
+  (In i (fst (covers_overlaps (build d rows keys ps) q)) <->
+   i < length rows /\ coveredb d (nth i rows []) q = true).
+Proof. exact RtreeProofs.C03_covers_In. Qed.
+Print Assumptions C03_covers_In.
+
+Theorem C03_overlaps_In : forall d rows keys ps q i,
+  1 <= d -> Forall (wf_box d) rows -> Permutation keys (seq 0 (length rows)) ->
+  length q = 2 * d ->
+  (In i (snd (covers_overlaps (build d rows keys ps) q)) <->
+   i < length rows /\ overlapsb d (nth i rows []) q = true /\ coveredb d (nth i rows []) q = false).
+Proof. exact RtreeProofs.C03_overlaps_In. Qed.
+Print Assumptions C03_overlaps_In.
+
+Theorem C03_covers_overlaps_NoDup : forall d rows keys ps q,
+  1 <= d -> Forall (wf_box d) rows -> Permutation keys (seq 0 (length rows)) ->
+  length q = 2 * d ->
+  NoDup (fst (covers_overlaps (build d rows keys ps) q) ++
+         snd (covers_overlaps (build d rows keys ps) q)).
+Proof. exact RtreeProofs.C03_covers_overlaps_NoDup. Qed.
+Print Assumptions C03_covers_overlaps_NoDup.
+
+(* covers_overlaps splits exactly the set intersects returns *)
+Theorem C03_split : forall d rows keys ps q,
+  1 <= d -> Forall (wf_box d) rows -> Permutation keys (seq 0 (length rows)) ->
+  length q = 2 * d ->
+  Permutation (fst (covers_overlaps (build d rows keys ps) q) ++
+               snd (covers_overlaps (build d rows keys ps) q))
+              (intersects (build d rows keys ps) q).
+Proof. exact RtreeProofs.C03_split. Qed.
+Print Assumptions C03_split.
+
+(* ---- independence of the curve order (any permutation) and of the page size ---- *)
+Theorem C03_independent : forall d rows keys keys' ps ps' q,
+  1 <= d -> Forall (wf_box d) rows ->
+  Permutation keys (seq 0 (length rows)) -> Permutation keys' (seq 0 (length rows)) ->
+  length q = 2 * d ->
+  Permutation (intersects (build d rows keys ps) q) (intersects (build d rows keys' ps') q) /\
+  Permutation (fst (covers_overlaps (build d rows keys ps) q))
+              (fst (covers_overlaps (build d rows keys' ps') q)) /\
+  Permutation (snd (covers_overlaps (build d rows keys ps) q))
+              (snd (covers_overlaps (build d rows keys' ps') q)).
+Proof. exact RtreeProofs.C03_independent. Qed.
+Print Assumptions C03_independent.
+
+(* ---- (a) the brute-force part: masks over a range of the sorted rows ---- *)
+Theorem C03_leaf_scan : forall d rows keys ps q s e,
+  1 <= d -> Forall (fun r => length r = 2 * d) rows ->
+  Permutation keys (seq 0 (length rows)) -> length q = 2 * d ->
+  let T := build d rows keys ps in
+  scan_slice T (fun r => negb (row_outside d q r)) (s, e) =
+    filter (fun i => overlapsb d (nth i rows []) q) (slice s e keys) /\
+  scan_slice T (fun r => row_covers d q r) (s, e) =
+    filter (fun i => coveredb d (nth i rows []) q) (slice s e keys) /\
+  scan_slice T (fun r => negb (row_outside d q r || row_covers d q r)) (s, e) =
+    filter (fun i => overlapsb d (nth i rows []) q && negb (coveredb d (nth i rows []) q))
+           (slice s e keys).
+Proof. exact RtreeProofs.C03_leaf_scan. Qed.
+Print Assumptions C03_leaf_scan.
+
+(* ---- (b) array-heap arithmetic: node -> [start_index, stop_index) ---- *)
+Theorem C03_tree_node_range : forall d rows keys ps,
+  1 <= d -> Forall (fun r => length r = 2 * d) rows ->
+  Permutation keys (seq 0 (length rows)) -> rows <> [] ->
+  let T := build d rows keys ps in
+  tree_len T = 2 ^ Nat.log2_up (num_pages_of (length rows) (Nat.max 1 ps)) * 2 - 1 /\
+  leaf_start_of T = 2 ^ Nat.log2_up (num_pages_of (length rows) (Nat.max 1 ps)) - 1 /\
+  (forall v, right_child v < tree_len T ->
+     start_index T (left_child v) = start_index T v /\
+     stop_index T (right_child v) = stop_index T v /\
+     stop_index T (left_child v) = start_index T (right_child v) /\
+     start_index T v < stop_index T (left_child v) < stop_index T v) /\
+  (forall v, v < tree_len T -> tree_len T <= left_child v ->
+     leaf_start_of T <= v /\
+     start_index T v = (v - leaf_start_of T) * t_page_size T /\
+     stop_index T v = start_index T v + t_page_size T) /\
+  (start_index T 0 = 0 /\ length rows <= stop_index T 0).
+Proof. exact RtreeProofs.tree_node_range. Qed.
+Print Assumptions C03_tree_node_range.
+
+(* ---- (c) the box of a node: exact union of the boxes in its range; NaN iff none ---- *)
+Theorem C03_tree_node_bounds : forall d rows keys ps v,
+  1 <= d -> Forall (fun r => length r = 2 * d) rows ->
+  Permutation keys (seq 0 (length rows)) ->
+  let T := build d rows keys ps in
+  v < tree_len T ->
+  let R := slice (start_index T v) (stop_index T v) (t_bounds T) in
+  getrow v (t_tree T) = page_box d R /\
+  union_box d R (getrow v (t_tree T)) /\
+  (isnan (col 0 (getrow v (t_tree T))) = true <-> forall r, In r R -> row_finite r = false).
+Proof. exact RtreeProofs.tree_node_bounds. Qed.
+Print Assumptions C03_tree_node_bounds.
+
+(* ---- total_bounds: union of the boxes of the rows that have one ---- *)
+Theorem C03_total_bounds : forall d rows keys ps,
+  1 <= d -> Forall (fun r => length r = 2 * d) rows ->
+  Permutation keys (seq 0 (length rows)) ->
+  union_box d rows (total_bounds (build d rows keys ps)).
+Proof. exact RtreeProofs.C03_total_bounds. Qed.
+Print Assumptions C03_total_bounds.
+
+Theorem C03_total_bounds_box : forall d rows keys ps,
+  1 <= d -> Forall (fun r => length r = 2 * d) rows ->
+  Permutation keys (seq 0 (length rows)) ->
+  total_bounds (build d rows keys ps) = page_box d (map norm_row rows).
+Proof. exact RtreeProofs.C03_total_bounds_box. Qed.
+Print Assumptions C03_total_bounds_box.
+
+(* ---- NaN rows are inert ---- *)
+Theorem C03_nan_never_reported : forall d rows keys ps q i,
+  1 <= d -> Forall (wf_box d) rows -> Permutation keys (seq 0 (length rows)) ->
+  length q = 2 * d ->
+  row_finite (nth i rows []) = false ->
+  ~ In i (intersects (build d rows keys ps) q) /\
+  ~ In i (fst (covers_overlaps (build d rows keys ps) q)) /\
+  ~ In i (snd (covers_overlaps (build d rows keys ps) q)).
+Proof. exact RtreeProofs.C03_nan_never_reported. Qed.
+Print Assumptions C03_nan_never_reported.
+
+(* removing the NaN rows and renumbering the others ([old] maps new numbers to
+   old ones) changes neither the answers nor total_bounds, whatever the curve
+   order and page size of the two indexes *)
+Theorem C03_nan_inert : forall d rows keys ps keys' ps' q,
+  1 <= d -> Forall (wf_box d) rows -> Permutation keys (seq 0 (length rows)) ->
+  Permutation keys' (seq 0 (length (finite_rows rows))) ->
+  length q = 2 * d ->
+  let T := build d rows keys ps in
+  let T' := build d (finite_rows rows) keys' ps' in
+  let old := fun j => nth j (finite_idx rows) 0 in
+  Permutation (map old (intersects T' q)) (intersects T q) /\
+  Permutation (map old (fst (covers_overlaps T' q))) (fst (covers_overlaps T q)) /\
+  Permutation (map old (snd (covers_overlaps T' q))) (snd (covers_overlaps T q)) /\
+  total_bounds T' = total_bounds T.
+Proof. exact RtreeProofs.C03_nan_inert. Qed.
+Print Assumptions C03_nan_inert.
+
+(* ---- the hypothesis min <= max is needed: a reversed "box" is reported by
+   intersects although it does not satisfy the overlap inequalities ---- *)
+Example ex_reversed_row_needed :
+  let rows := [[Some 20; Some 2]; [Some 2; Some 6]]%Z in
+  intersects (build 1 rows [0; 1] 2) [0; 10]%Z = [0; 1] /\
+  filter (fun i => overlapsb 1 (nth i rows []) [0; 10]%Z) (seq 0 2) = [1].
+Proof. vm_compute. split; reflexivity. Qed.
